@@ -319,4 +319,166 @@ theorem ancS_of_append {s : Store} (hp : PriorsOK s) {g' : Seg} (hf : s.seg? g'.
     rw [parents_append hne] at hm
     exact AncS.step (ih (parent_valid hp hm).1) hm
 
+/-! ### the construction never takes an error branch -/
+
+/-- every merge segment carries a non-empty skip list (its last entry is the recorded ancestor) -/
+def MergeSkips (s : Store) : Prop :=
+  ∀ i g, s.seg? i = some g → ∀ l r, g.prior = .merge l r → g.skips ≠ []
+
+theorem rich_total {s : Store} (hwf : WF s) (hm : MergeSkips s) :
+    ∀ k w, s.valid w = true → ∃ b, hasNearbyRichAnchor s k w = .ok b := by
+  intro k
+  induction k with
+  | zero => intro w _; exact ⟨false, rfl⟩
+  | succ k ih =>
+    intro w hw
+    obtain ⟨g, hg, _, _⟩ := valid_iff.mp hw
+    unfold hasNearbyRichAnchor
+    rw [hg]
+    simp only
+    by_cases hr : g.skips.length > 1
+    · exact ⟨true, by simp [hr]⟩
+    · simp only [hr, if_false]
+      cases hp : g.prior with
+      | none => exact ⟨false, rfl⟩
+      | single p =>
+        simp only
+        exact ih p (hwf.priors _ g hg p (by rw [hp]; simp [Prior.toList])).1
+      | merge l r =>
+        simp only
+        have hne := hm _ g hg l r hp
+        cases hl : g.skips.getLast? with
+        | none => exact absurd (List.getLast?_eq_none_iff.mp hl) hne
+        | some c =>
+          simp only
+          have hc : c ∈ g.skips := List.mem_of_getLast? hl
+          exact ih c (hwf.skips _ g hg c hc).1
+
+theorem walk_total {s : Store} (hwf : WF s) :
+    ∀ f c ts acc, s.valid c = true → c.mc < f → ∃ r, walkCollectingSkips s f c ts acc = .ok r := by
+  intro f
+  induction f with
+  | zero => intro c ts acc _ h; omega
+  | succ f ih =>
+    intro c ts acc hc hf
+    obtain ⟨g, hg, hg1, _⟩ := valid_iff.mp hc
+    unfold walkCollectingSkips
+    rw [hg]
+    simp only
+    cases popReached g.first g.firstLoc ts acc with
+    | mk ts' acc' =>
+      cases ts' with
+      | nil => exact ⟨acc', rfl⟩
+      | cons nt ts'' =>
+        simp only
+        cases hm : minByMc (g.skips.filter (fun k => decide (nt ≤ k.mc ∧ k.mc < c.mc))) with
+        | some k =>
+          simp only
+          have hk := List.mem_filter.mp (minByMc_mem hm)
+          have hlt : k.mc < c.mc := by have := hk.2; simp at this; exact this.2
+          exact ih k _ _ (hwf.skips _ g hg k hk.1).1 (by omega)
+        | none =>
+          simp only
+          cases hp : g.prior with
+          | none => exact ⟨acc', rfl⟩
+          | merge l r => exact ⟨acc', rfl⟩
+          | single p =>
+            simp only
+            have hpv := hwf.priors _ g hg p (by rw [hp]; simp [Prior.toList])
+            split
+            · exact ih p _ _ hpv.1 (by omega)
+            · exact ⟨acc', rfl⟩
+
+theorem length_insertByMc (x : Loc) (l : List Loc) : (insertByMc x l).length = l.length + 1 := by
+  induction l with
+  | nil => rfl
+  | cons y ys ih => simp only [insertByMc]; split <;> simp [ih]
+
+theorem sortByMc_ne_nil {l : List Loc} (h : l ≠ []) : sortByMc l ≠ [] := by
+  have key : ∀ (l acc : List Loc),
+      (l.foldl (fun acc x => insertByMc x acc) acc).length = acc.length + l.length := by
+    intro l
+    induction l with
+    | nil => intro acc; simp
+    | cons x xs ih => intro acc; simp only [List.foldl_cons, ih, length_insertByMc, List.length_cons]; omega
+  intro hs
+  have := key l []
+  unfold sortByMc at hs
+  rw [hs] at this
+  simp at this
+  exact h (List.eq_nil_of_length_eq_zero this.symm)
+
+theorem dedup_ne_nil : ∀ {l : List Loc}, l ≠ [] → dedup l ≠ []
+  | [], h => absurd rfl h
+  | [x], _ => by simp [dedup]
+  | x :: y :: ys, _ => by
+    simp only [dedup]
+    split
+    · exact dedup_ne_nil (by simp)
+    · simp
+
+/-- on a well-formed store whose merge segments all carry their recorded ancestor, `build_skip_list`
+takes none of its error branches (no `bug`, no missing segment; the fuel of the model's loops is
+never exhausted), and a merge gets a non-empty skip list again -/
+theorem build_total {s : Store} (hwf : WF s) (hm : MergeSkips s) (prior : Prior) (lca : Option Loc)
+    (n : Nat) (hprior : ∀ p ∈ prior.toList, s.valid p = true)
+    (hlca : ∀ l r, prior = .merge l r → ∃ c, lca = some c ∧ s.valid c = true)
+    (hb : ∀ n, ∃ l, skipTargetBoundaries n = .ok l) :
+    ∃ skips, buildSkipList s prior lca n = .ok skips ∧ (∀ l r, prior = .merge l r → skips ≠ []) := by
+  have go : ∀ (w : Loc) (lc : Option Loc), s.valid w = true →
+      ∃ skips, (match hasNearbyRichAnchor s AranyaV.Gen.minSkipGap w with
+        | .error e => .error e
+        | .ok rich =>
+          if rich ∨ n < AranyaV.Gen.minSkipGap then .ok lc.toList
+          else
+            match skipTargetBoundaries n with
+            | .error e => .error e
+            | .ok targets =>
+              match walkCollectingSkips s (w.mc + 1) w targets.reverse [] with
+              | .error e => .error e
+              | .ok skips =>
+                let skips := match lc with
+                  | some l => if skips.contains l then skips else skips ++ [l]
+                  | none => skips
+                .ok (dedup (sortByMc skips))) = Except.ok skips ∧ (lc ≠ none → skips ≠ []) := by
+    intro w lc hw
+    obtain ⟨rich, hr⟩ := rich_total hwf hm AranyaV.Gen.minSkipGap w hw
+    rw [hr]
+    simp only
+    by_cases hc : rich = true ∨ n < AranyaV.Gen.minSkipGap
+    · refine ⟨lc.toList, by simp [hc], ?_⟩
+      intro h; cases lc with
+      | none => exact absurd rfl h
+      | some c => simp
+    · simp only [hc, if_false]
+      obtain ⟨targets, ht⟩ := hb n
+      rw [ht]
+      simp only
+      obtain ⟨sk, hsk⟩ := walk_total hwf (w.mc + 1) w targets.reverse [] hw (by omega)
+      rw [hsk]
+      simp only
+      refine ⟨_, rfl, ?_⟩
+      intro h
+      cases lc with
+      | none => exact absurd rfl h
+      | some c =>
+        simp only
+        apply dedup_ne_nil
+        apply sortByMc_ne_nil
+        split
+        · rename_i hcn
+          intro he; rw [he] at hcn; simp at hcn
+        · simp
+  unfold buildSkipList
+  cases prior with
+  | none => exact ⟨[], rfl, by intro l r h; cases h⟩
+  | single p =>
+    obtain ⟨sk, h1, _⟩ := go p none (hprior p (by simp [Prior.toList]))
+    exact ⟨sk, h1, by intro l r h; cases h⟩
+  | merge l r =>
+    obtain ⟨c, hc, hcv⟩ := hlca l r rfl
+    subst hc
+    obtain ⟨sk, h1, h2⟩ := go c (some c) hcv
+    exact ⟨sk, h1, fun _ _ _ => h2 (by simp)⟩
+
 end AranyaV.Segments
